@@ -100,6 +100,14 @@ FRAMES = [
             F.udp(1000, 4000, b"y", src=0x0a090909, dst=0x0a010909))) + b"\0" * 17),
 ]
 
+# other packets of FRAMES[0]'s conversation on the same port: its answer
+# (addresses and ports exchanged) and a second connection one port number up
+# on both sides (1001 -> 81, which the tp_dst=81 entry below is for)
+from pvm.gen import framegen as _fg
+FRAMES += [(1, _fg.twin(FRAMES[0][1])), (1, _fg.mirror(FRAMES[0][1])),
+           (1, _fg.mirror(FRAMES[1][1]))]
+assert all(f for _, f in FRAMES)
+
 # an entry without any wildcard (it ranks above every wildcarded entry
 # whatever its priority field says): the exact match of FRAMES[0]
 _ex = OM.extract(FRAMES[0][1], FRAMES[0][0])
